@@ -15,6 +15,9 @@ fn script_of(id: u64, salt: u64) -> Script {
     v.push(id as u8);
     v.extend_from_slice(&salt.to_le_bytes());
     v.extend_from_slice(&[0x75, 0x51]);
+    // length classes around the CompactSize boundary of the leaf-hash preimage: 12, 75, 252, 253, 600 bytes
+    let want = [12usize, 75, 252, 253, 600][(id % 5) as usize];
+    while v.len() < want { v.push(0x61); }
     Script::from(v)
 }
 fn hidden_of(id: u64, salt: u64) -> [u8; 32] {
@@ -205,20 +208,21 @@ pub fn deep(args: &[String], out: &mut Out) {
         let res = guard(|| {
             let mut bad: Vec<(String, String)> = vec![];
             let mut b = TaprootBuilder::new();
-            let mut ops: Vec<(bool, usize, u64)> = vec![(true, n, 1), (true, n, 2)];
-            for k in 1..n { ops.push((false, n - k, k as u64 + 2)); }
+            let ops: Vec<(bool, usize, u64)> = c["ops"].as_array().unwrap().iter().map(|o| (o["kind"] == "leaf", o["depth"].as_u64().unwrap() as usize, o["id"].as_u64().unwrap())).collect();
+            let bottom_leaf = c["bottom"] == "leaf";
             let want_at = c["at"].as_u64().unwrap() as usize;
             for (i, (leaf, d, id)) in ops.iter().enumerate() {
                 let step = if *leaf { b.add_leaf(*d, script_of(*id, 5)) } else { b.add_hidden(*d, TapNodeHash::from_byte_array(hidden_of(*id, 5))) };
                 match step {
-                    Ok(nb) => { if want_at == i + 1 { bad.push((format!("C15/depth-limit/accepted-depth-{}", n), String::new())); return bad; } b = nb; }
-                    Err(e) => { if want_at != i + 1 || c["err"].as_str().unwrap() != err_name(&e) { bad.push((format!("C15/depth-limit/refused-depth-{}", n), format!("{:?} at op {}", e, i + 1))); } return bad; }
+                    Ok(nb) => { if want_at == i + 1 { bad.push((format!("C15/depth-limit/accepted-depth-{}/bottom-{}", n, c["bottom"].as_str().unwrap()), String::new())); return bad; } b = nb; }
+                    Err(e) => { if want_at != i + 1 || c["err"].as_str().unwrap() != err_name(&e) { bad.push((format!("C15/depth-limit/refused-depth-{}/bottom-{}", n, c["bottom"].as_str().unwrap()), format!("{:?} at op {}", e, i + 1))); } return bad; }
                 }
             }
             let internal = pools::pubkey(&mut rng(9, 9)).x_only_public_key().0;
             match b.finalize(secp, internal) {
                 Ok(info) => {
-                    let s = script_of(1, 5);
+                    // the deepest leaf: one of the two bottom nodes, or the leaf next to the two hidden bottom nodes
+                    let (s, n) = if bottom_leaf { (script_of(1, 5), n) } else { (script_of(3, 5), n - 1) };
                     match info.control_block(&(s.clone(), LeafVersion::default())) {
                         Some(cb) => { if cb.merkle_branch.as_inner().len() != n || !cb.verify_taproot_commitment(secp, &info.output_key(), &s) || cb.size() != 33 + 32 * n { bad.push((format!("C15/depth-limit/control-block-depth-{}", n), String::new())); } }
                         None => bad.push((format!("C15/depth-limit/no-control-block-{}", n), String::new())),
